@@ -805,9 +805,10 @@ namespace
         }
 
         // ---- run --------------------------------------------------------------------------------------------
-        // Termination by evaluation count only.  In 1 of 5 cases the budget is spent in two consecutive solve() calls on
-        // the same planner (the second only if no exact solution exists yet); every path registered by either call is
-        // examined, and the flag <-> status clause is decided per call.
+        // Termination by evaluation count only.  In 1 of 3 cases the same planner instance (no clear()) is driven through
+        // 2-3 consecutive solve() calls whatever the earlier calls returned, with drawn budgets (half of the later ones
+        // tiny: 10-100 evaluations) and, per gap with probability 1/2, pdef->clearSolutionPaths() in between.  Every path
+        // registered by any call is examined together with the status of the call that registered it.
         unsigned long budget = (unsigned long)(a.thorough() ? rng.logUni(2000, 60000) : rng.logUni(1500, 25000));
         if (pl == P_SST && !sstStopAtFirst)
             budget = budget / 2 + 500;  // always runs the whole budget
@@ -815,40 +816,82 @@ namespace
             budget = 300 + budget % 1700;  // nothing can be reached; a short run gives the approximate paths wanted
         if (regionalNN)
             budget = std::min(budget, 6000ul);  // linear scans over the region's motions: quadratic in the tree size
-        // second, equally deterministic bound on the tree size (calls of the harness's propagator by the library)
+        // second, equally deterministic bound on the tree size: calls of the harness's propagator by the library, summed
+        // over the calls of the case; a continued call is always granted at least 20000 of them
         const long callCap = a.thorough() ? 600000 : 300000;
-        const int phases = rng.coin(0.2) ? 2 : 1;
-        H((double)budget), H(phases);
-        unsigned long evals = 0;
+        const int phases = rng.coin(1.0 / 3) ? rng.range(2, 3) : 1;
+        std::vector<unsigned long> limits(phases, budget);
+        std::vector<bool> clearBefore(phases, false);
+        if (phases > 1)
+        {
+            const double r = rng.u01();
+            if (r < 0.2)
+                limits[0] = (unsigned long)rng.logUni(10, 300);  // a first call that hardly gets anywhere
+            else if (r < 0.4)
+                limits[0] = budget / 3 + 1;
+            for (int ph = 1; ph < phases; ++ph)
+            {
+                limits[ph] = (unsigned long)(rng.coin() ? rng.logUni(10, 100) : rng.logUni(100, budget / 2. + 101));
+                clearBefore[ph] = rng.coin();
+            }
+        }
+        H(phases);
+        for (int ph = 0; ph < phases; ++ph)
+            H((double)limits[ph]), H(clearBefore[ph]);
+        unsigned long evals = 0, evalsTotal = 0;
         ob::ProblemDefinition *pd = pdef.get();
         sys.ps = PropStats();
         ob::PlannerStatus st = ob::PlannerStatus::UNKNOWN;
         struct Found
         {
-            ob::PlannerSolution sol;
+            ob::PlannerSolution sol;  // holds the path alive, so path addresses identify registrations uniquely
             ob::PlannerStatus status;
             int phase;
+            unsigned long limit, evals;
+            bool clearedBefore, exactExistedBefore;
         };
         std::vector<Found> found;
         std::set<const ob::Path *> seen;
+        int curCall = 0;
+        bool curCleared = false, curExactBefore = false;
+        unsigned long curLimit = budget;
         auto base = [&]() {
             J j;
             j.str("planner", P).str("system", S).str("status", st.asString()).u("lib_seed", libSeed);
-            j.num("step", h).u("min_steps", minD).u("max_steps", maxD).u("budget", budget).u("evals", evals);
+            j.num("step", h).u("min_steps", minD).u("max_steps", maxD).u("budget", curLimit).u("evals", evals);
             j.i("goal_kind", goalKind).num("threshold", thr).u("n_obstacles", w.obs.size()).i("solve_calls", phases);
+            if (phases > 1)
+            {
+                std::vector<double> lim(limits.begin(), limits.end()), clr(clearBefore.begin(), clearBefore.end());
+                j.i("call", curCall).arr("call_budgets", lim).arr("cleared_paths_before_call", clr);
+                j.b("exact_solution_existed_before_call", curExactBefore);
+            }
             if (creeping)
                 j.num("control_scale", cscale);
             return j;
         };
-        bool anySolutionStatus = false, abandoned = false;
+        bool abandoned = false, everCleared = false, everExact = false;
+        long maxCalls = 0;
         for (int ph = 0; ph < phases && !abandoned; ++ph)
         {
-            if (ph > 0 && pdef->hasExactSolution())
-                break;
-            const unsigned long limit = (ph + 1 == phases) ? budget : budget / 3;
+            if (clearBefore[ph])
+            {
+                pdef->clearSolutionPaths();
+                everCleared = true;
+                sink.count("c02_clearSolutionPaths_between_calls");
+            }
+            // "or an exact solution was registered" ends a call early only if none was there when the call began;
+            // otherwise a continued call would return at once
+            const bool stopOnExact = !pdef->hasExactSolution();
+            const unsigned long limit = limits[ph];
             const PropStats *pstats = &sys.ps;
-            ob::PlannerTerminationCondition ptc([&evals, limit, pd, pstats, callCap] {
-                return ++evals > limit || pstats->calls > callCap || pd->hasExactSolution();
+            const long callsAtStart = sys.ps.calls;
+            evals = 0;
+            curCall = ph, curCleared = clearBefore[ph], curExactBefore = everExact, curLimit = limit;
+            const long callAllowance = std::max(callCap - callsAtStart, 20000l);
+            ob::PlannerTerminationCondition ptc([&evals, limit, pd, pstats, callAllowance, callsAtStart, stopOnExact] {
+                return ++evals > limit || pstats->calls - callsAtStart > callAllowance ||
+                       (stopOnExact && pd->hasExactSolution());
             });
             try
             {
@@ -860,37 +903,70 @@ namespace
                 sink.noteCase(hash, false);
                 return;
             }
+            evalsTotal += evals;
+            if (sys.ps.calls - callsAtStart > callAllowance)
+                maxCalls = callCap + 1;  // marks "some call was ended by the propagation cap"
             sink.count("c02_solve_calls");
+            if (ph > 0)
+            {
+                sink.count("c02_continued_solve_calls");
+                if (everExact)
+                    sink.count("c02_continued_solve_calls_after_exact_solution");
+                if (limit <= 100)
+                    sink.count("c02_continued_solve_calls_tiny_budget");
+            }
             sink.count("c02_status:" + st.asString());
             const bool solStatus =
                 st == ob::PlannerStatus::EXACT_SOLUTION || st == ob::PlannerStatus::APPROXIMATE_SOLUTION;
-            anySolutionStatus |= solStatus;
             size_t added = 0;
             for (const auto &sol : pdef->getSolutions())
                 if (seen.insert(sol.path_.get()).second)
                 {
-                    found.push_back(Found{sol, st, ph});
+                    found.push_back(Found{sol, st, ph, limit, evals, curCleared, curExactBefore});
                     ++added;
+                    if (ph > 0)
+                    {
+                        sink.count("c02_paths_registered_by_continued_calls");
+                        if (everExact)
+                        {
+                            sink.count(std::string("c02_paths_registered_after_exact_solution_") +
+                                       (sol.approximate_ ? "approx" : "exact"));
+                            sink.count("c02_paths_registered_after_exact_solution:" + P);
+                        }
+                    }
                 }
             if (!solStatus && added > 0)
             {
                 // a non-solution status must not register a path
-                sink.viol("C02:nonsolution-added-path:" + P, base().u("paths_added_by_call", added).i("call", ph));
+                sink.viol("C02:nonsolution-added-path:" + P, base().u("paths_added_by_call", added));
                 abandoned = true;
             }
             if (solStatus && pdef->getSolutionCount() == 0)
             {
-                sink.viol("C02:empty-path:" + P,
-                          base().str("what", "solution status but the problem definition has no path").i("call", ph));
-                abandoned = true;
+                if (!everCleared)
+                {
+                    sink.viol("C02:empty-path:" + P,
+                              base().str("what", "solution status but the problem definition has no path"));
+                    abandoned = true;
+                }
+                else  // the harness emptied the list itself; the statement has no path to speak about (observation only)
+                    sink.count("c02_solution_status_without_path_after_clearSolutionPaths:" + P);
             }
+            if (solStatus && added == 0 && pdef->getSolutionCount() > 0)
+                sink.count("c02_solution_status_without_new_path:" + P);
+            if (pdef->hasExactSolution())
+                everExact = true;
+            for (const auto &f : found)
+                if (!f.sol.approximate_)
+                    everExact = true;
         }
+        evals = evalsTotal;
         const PropStats libStats = sys.ps;
         sink.count("c02_lib_propagator_calls", libStats.calls);
         sink.count("c02_lib_propagator_calls_dt_not_step", libStats.notStep);
         sink.count("c02_lib_propagator_calls_in_place", libStats.aliased);
         sink.count("c02_ptc_evaluations", (long long)evals);
-        if (libStats.calls > callCap)
+        if (maxCalls > callCap)
             sink.count("c02_cases_stopped_by_propagation_cap");
         if (abandoned)
         {
@@ -899,7 +975,6 @@ namespace
         }
         if (found.empty())
         {
-            (void)anySolutionStatus;
             sink.count("c02_nosolution:" + P);
             sink.inconclusive("no-solution");
             sink.noteCase(hash, false);
@@ -915,7 +990,10 @@ namespace
         {
             const ob::PlannerSolution &sol = found[k].sol;
             const bool approx = sol.approximate_;
-            st = found[k].status;  // base() reports the status of the call that registered this path
+            // base() reports the call that registered this path: its status, budget and history
+            st = found[k].status;
+            curCall = found[k].phase, curLimit = found[k].limit, evals = found[k].evals;
+            curCleared = found[k].clearedBefore, curExactBefore = found[k].exactExistedBefore;
             auto *path = dynamic_cast<oc::PathControl *>(sol.path_.get());
             if (!path || path->getStateCount() == 0)
             {
